@@ -38,6 +38,10 @@ def _not_winner(a, v, el, winner) -> bool:
 
 
 def run(ctx):
+    # premise of 'export equals the SuperNet under hard selection': asking for hard selection
+    # switches every combiner (shared with C11)
+    from .c11 import options_reach_every_layer
+    options_reach_every_layer(ctx, 'R03f', only=('SuperNet',))
     repo = ctx.repo
     eg = repo.fn('supernet.graph.export_graph')
     comb = repo.cls('SuperNetCombiner')
